@@ -371,3 +371,20 @@ PROPS['C12'] = dict(
     bounds='as C05 / C06', trusted_base=TB_SIM + ['sim/simnet.cc residue filling of recv/recvfrom/recvmsg buffers'],
     assumptions=AS_SIM + ['stale contents of buffers other than the receive buffer (uninitialised stack) are not controlled by the harness'],
 )
+
+PROPS['C11'] = dict(
+    bin='c11', sources=['props/c11.cc'] + SIMSRC2, unit_objs=UNIT, images=IMGS, engine='rc',
+    quick=dict(workers=8, cases=2500, budget=45, min_nontrivial=50),
+    thorough=dict(workers=16, cases=30000, budget=1500, min_nontrivial=3000),
+    rule='case = relay profile from the family {case keep/lower/upper/random} x {bytes >= 0x80 clean/strip/reject} x {+ keep/mangle} x {_ keep/mangle}, chosen '
+         'separately for query names and for names/text in answers (1 in 3 profiles leave answers alone) x allowed record types (suffix or prefix of NULL,PRIVATE,TXT,'
+         'SRV,MX,CNAME,A, a single type, or all) x answer size limit {none,4096,1232,512} x EDNS0 honoured or not (512 without) x refusal by SERVFAIL or silence x DNS '
+         'ids kept or rewritten; REAL iodine client (autodetect everything, or one of -T/-O/-m forced; -L, -M) <-> relay (parses and rebuilds every message with the '
+         'reference DNS implementation) <-> REAL iodined. Oracle (A): if the client reaches its tunnel loop, 6 packets each way (byte ramps, bytes 0xf8..0xff, random) are '
+         'written to the peer tun byte-identically and in order, nothing else is written, and the client keeps running. (B): if an allowed record type exists (and a forced '
+         'option itself survives the profile) the handshake must succeed. non-trivial iff the profile is not the identity and the negotiated tuple differs from '
+         '(NULL, Base128, fragment >= 1000)',
+    engine_text='rapidcheck over choice tapes; simnet hosting real iodine + real iodined; relay actor built on ref/refdns.cc',
+    bounds='<= 400 virtual s of handshake, 12 packets', trusted_base=TB_SIM,
+    assumptions=AS_SIM + ['only fixed (length-independent) transformations; raw UDP mode is skipped (-r) because it bypasses the DNS path the property is about'],
+)
